@@ -967,6 +967,8 @@ encode:
         psFree(out->buf, ssl->bufferPool);
         if ((out->buf = psMalloc(ssl->bufferPool, requiredLen)) == NULL)
         {
+            out->start = out->end = NULL;
+            out->size = 0;
             return PS_MEM_FAIL;
         }
         out->start = out->end = out->buf;
@@ -1193,13 +1195,15 @@ int32 matrixDtlsGetOutdata(ssl_t *ssl, unsigned char **buf)
         }
 
         /* A true flight resend is needed */
-        if ((rc = dtlsResendFlight(ssl, &tmp)) < 0)
+        rc = dtlsResendFlight(ssl, &tmp);
+        /* The flight buffer may have been reallocated, also on failure */
+        ssl->outbuf = tmp.buf;
+        ssl->outsize = tmp.size;
+        if (rc < 0)
         {
             return rc;
         }
-        ssl->outbuf = tmp.buf;
         ssl->outlen = tmp.end - tmp.start;
-        ssl->outsize = tmp.size;
     }
 
 /*
